@@ -40,3 +40,5 @@ Definition arith_prop (c : arith_case) : list Z :=
         end)
   else [].
 Definition arith_check := indexed_failures arith_prop.
+
+Definition nocheck {A} (l : list A) : list (Z * list (Z * Z)) := [].
